@@ -54,6 +54,7 @@ func (c *converter) Extension() string {
 
 func (c *converter) ProgramStart() error {
 	c.addStartLine(fmt.Sprintf("#!%s", c.interpreter))
+	c.addStartLine(`LC_ALL="C"`) // len and substrings count bytes, as in Go, whatever the locale of the environment is
 	return nil
 }
 
